@@ -640,7 +640,8 @@ def _all_types(rec):
 
 def _collect_names(t, acc):
     if t["k"] == "cls" and "." in t["n"]:
-        mod, name = t["n"].split(".", 1) if not t["n"].startswith("zpkg.") else ("zpkg.zutil", t["n"][len("zpkg.zutil."):])
+        mq = absmodel.TABLE.modqn.get(t["n"])
+        mod, name = mq.split(":", 1) if mq else t["n"].split(".", 1)
         acc.setdefault(name.split(".")[0], set()).add(mod)
     for x in t["a"] + t["u"]:
         _collect_names(x, acc)
@@ -665,7 +666,7 @@ def _collect_mods(t, acc):
 def main(pid, tier, seed, replay=None):
     core.use_repo()
     envgen.load_fixture_classes()
-    for m in ("zutil", "zpkg.zutil", "zfoo", "barzfoo", "zfoo_v2", "ztarget"):
+    for m in ("zutil", "zpkg", "zpkg.zutil", "zfoo", "barzfoo", "zfoo_v2", "ztarget", "zmytyping"):
         mod = importlib.import_module(m)
         for v in vars(mod).values():
             if isinstance(v, type):
